@@ -136,6 +136,12 @@ def run(ctx):
             given_stored = bool(unit_w) or bool(stores)
             oku = given_stored and all(pf.at(i) == "P" for i in unit_w)
             okd = (bool(desc_w) or bool(stores)) and not [r for r in b.return_blocks() if r in b.reachable(0, cut=set(desc_w) | set(stores))]
+            # one critical section: the entry is looked up and updated under ONE acquisition of the table's lock (a
+            # check under one acquisition and an insert under the next lets two racing first descriptions overwrite each
+            # other — the unit given by one of them is lost although either order of the two calls would keep it)
+            locks = [c for c in nonforeign_calls(f) if c.is_("Mutex<T>::lock", "RwLock<T>::write", "Mutex<T>::try_lock")]
+            if len(locks) > 1:
+                oku = False
             chk.ob("C19.d", f"{f.path} [unit only when given]", oku, "the stored unit is replaced only when the new description carries Some(unit)" if oku else "a later description without a unit erases the earlier unit (or a given unit is not stored)", f.loc())
             chk.ob("C19.d", f"{f.path} [description always]", okd, "the description is replaced on every describe" if okd else "the most recent description is not always stored", f.loc())
     for grp in ("describe", "register"):
@@ -226,6 +232,12 @@ def run(ctx):
             # filter_map keeps an entry only when the closure returns Some: the closure's result is the looked-up value mapped
             ret_ = strip_sym(sy.local(0))
             ok = any(c.fn is snap and c.is_("Iterator::filter_map") for c in nonforeign_calls(snap)) and sym_is_call(ret_, "Option<T>::map", "Option<T>::and_then", "Option<T>::zip") and "get(" in sym_str(ret_)
+        if ok:
+            # ... and on nothing else: a registered histogram that received no value since the previous snapshot is
+            # still listed (with no values) — no emptiness test decides whether a row is produced
+            sel = sorted({callee_method_name(c) for c in nonforeign_calls(snap) if c.is_("bool::then", "bool::then_some", "Option<T>::filter", "Option<T>::take_if")})
+            if sel:
+                ok = False
         chk.ob("C19.c", f"{snap.path} [only metrics with a value]", ok, "an entry is emitted only when its kind's map has a value (described-only names are skipped)" if ok else "snapshot entries are not conditional on a value existing", snap.loc())
         # the key under which the description table is read
         mg = [c for c in nonforeign_calls(snap) if c.fn is B and "indexmap" in (c.resolved or "") and callee_method_name(c) in ("get", "get_full", "get_key_value") and "CompositeKeyName" in repr(c.t.get("gargs")) + (c.resolved or "") + repr(arg_syms(c)[1])]
